@@ -177,7 +177,18 @@ fn to_timespec(duration: Duration) -> MaybeUninit<libc::timespec> {
 /// This array is used to store caught signals. All slots are initialized with
 /// 0, which indicates that the slot is available. When a signal is caught, the
 /// signal number is written into one of unoccupied slots.
-static CAUGHT_SIGNALS: [AtomicIsize; 8] = [const { AtomicIsize::new(0) }; 8];
+///
+/// There are as many slots as signal numbers the system may use, so there is
+/// always a slot for every distinct signal caught before the slots are
+/// examined and cleared.
+static CAUGHT_SIGNALS: [AtomicIsize; CAUGHT_SIGNALS_LEN] =
+    [const { AtomicIsize::new(0) }; CAUGHT_SIGNALS_LEN];
+
+/// Number of slots in [`CAUGHT_SIGNALS`]
+///
+/// This value is not less than the number of signals on any supported system,
+/// including real-time signals.
+const CAUGHT_SIGNALS_LEN: usize = 128;
 
 /// Signal catching function.
 ///
@@ -191,7 +202,8 @@ extern "C" fn catch_signal(signal: c_int) {
     // Find an unused slot (having a value of 0) in CAUGHT_SIGNALS and write the
     // signal number into it.
     // If there is a slot having a value of the signal already, do nothing.
-    // If there is no available slot, the signal will be lost!
+    // There are enough slots for all signals, so an available slot is always
+    // found.
     let signal = signal as isize;
     for slot in &CAUGHT_SIGNALS {
         match slot.compare_exchange(0, signal, Ordering::Relaxed, Ordering::Relaxed) {
